@@ -255,9 +255,9 @@ KAURI_KERNELS = sorted(gens.KERNEL_PARAM_NAMES)
 
 @st.composite
 def kauri_spec(draw, n_max=30, d_max=4, kinds=("grid", "normal", "grid2", "const")):
-    n = draw(st.integers(1, n_max))
+    n = draw(st.one_of(st.integers(max(1, n_max // 3), n_max), st.integers(1, n_max)))
     d = draw(st.integers(1, d_max))
-    leaf = draw(st.integers(1, 4))
+    leaf = draw(st.sampled_from([1, 1, 2, 1, 3, 4]))
     leaf = min(leaf, n)  # ensure_min_samples = min_samples_leaf
     split = draw(st.integers(2 * leaf, 2 * leaf + 4))
     form = draw(st.sampled_from(["named", "named", "precomputed", "callable", "psd", "indef"]))
